@@ -2,8 +2,9 @@
    offline robustness at sample i, for every forest of past-time
    specifications (so also when the same sub-formula text occurs more than
    once: the dictionary is keyed by the formula).  Property theorems only. *)
-From Coq Require Import List Arith ZArith.
+From Coq Require Import List Arith ZArith String.
 From RV Require Import Val Syntax Rho Offline ListFacts OfflineCorrect Online OnlineCorrect ExtZ.
+From RV Require Import Lexer Units NodeName NodeNameCorrect OnlineNamed OnlineNamedCorrect.
 Import ListNotations.
 
 (* every reachable monitor state: feeding rows 0..len-1 from a fresh monitor *)
@@ -33,4 +34,92 @@ Example C02_nonvacuous :
 Proof.
   cbv zeta. split; [split; [discriminate|]|vm_compute; reflexivity].
   intros x [<-|[]]. split; reflexivity.
+Qed.
+
+(* The code keys the operation objects (and the per-update memo) by node.name, a text every node class builds from
+   the names of its children; the model above keys them by the formula.  The two agree because the printer is
+   injective: among all the nodes of all the assertions of a specification (as parse() or pastify() leaves them:
+   NodeName.node, nname), two nodes with the same name are the same node -- same class, same operator, same bounds
+   and units, same leaves.  nwf: a variable is an Identifier of the lexer cut at its first dot, a constant is str(float). *)
+Theorem C02_names_injective :
+  forall roots : list node,
+    (forall r, In r roots -> nwf r = true) ->
+    forall p q, In p (flat_map subnodes roots) -> In q (flat_map subnodes roots) ->
+    nname p = nname q -> p = q.
+Proof. exact @names_injective. Qed.
+Print Assumptions C02_names_injective.
+
+(* the generalisation that carries the induction: a name followed by ')' or ',' (or by nothing) is read in one way *)
+Theorem C02_names_prefix_free :
+  forall (p q : node) (r1 r2 : list Ascii.ascii),
+    nwf p = true -> nwf q = true -> stop r1 -> stop r2 ->
+    (to_chars (nname p) ++ r1 = to_chars (nname q) ++ r2)%list -> p = q /\ r1 = r2.
+Proof. exact @nname_prefix_free. Qed.
+Print Assumptions C02_names_prefix_free.
+
+(* hence equal names denote the same formula of the model, whatever the data columns, the values of the constant
+   texts, the default unit and the sampling period are *)
+Theorem C02_names_determine_formula :
+  forall (VS : Val) (vidx : string -> string -> nat) (cval : string -> V) (du : tunit) (per : Z) (pu : tunit)
+         (roots : list node),
+    (forall r, In r roots -> nwf r = true) ->
+    forall p q, In p (flat_map subnodes roots) -> In q (flat_map subnodes roots) ->
+    nname p = nname q -> erase vidx cval du per pu p = erase vidx cval du per pu q.
+Proof. exact @names_determine_formula. Qed.
+Print Assumptions C02_names_determine_formula.
+
+(* the hypothesis on variables is what the lexer delivers: every Identifier token, cut as visitExprId cuts it *)
+Theorem C02_names_lexer_identifiers :
+  forall (fuel : nat) (l : chars) (ts : list token) (s : string),
+    lex fuel l = Some ts -> In (TId s) ts -> nwf (var_of_ident s) = true.
+Proof. exact @lex_var_wf. Qed.
+Print Assumptions C02_names_lexer_identifiers.
+
+(* The monitor as the code has it -- ONE operation object per node name, the per-update memo keyed by the name
+   (OnlineNamed.v, over the syntax nodes) -- returns at the k-th update rho at sample k of the formula the last assertion
+   denotes (sem: columns for variables, float(text) for constants, bounds in samples) ... *)
+Theorem C02_online_named :
+  forall (VS : Val) (AR : Arith VS) (pk : formula -> formula -> pkind)
+         (vidx : string -> string -> nat) (cval : string -> V) (bnd : bound -> bound -> nat * nat)
+         (w : trace) (n : nat) (F : list node) (len : nat),
+    F <> [] ->
+    (forall x, In x F -> nwf x = true /\ past_only (sem vidx cval bnd x) = true /\ wf_bounds (sem vidx cval bnd x) = true) ->
+    snd (nmon_run AR pk vidx cval bnd F (ndict_init vidx cval bnd F) w 0 len)
+    = tab (rho AR pk (sem vidx cval bnd (last F (NConst EmptyString))) w n) len.
+Proof. exact @named_online_correct. Qed.
+Print Assumptions C02_online_named.
+
+(* ... which is what the model keyed by the formula (C02_online above) returns on the formulas the nodes denote: the
+   assumption "the node printer is injective" of that model is discharged *)
+Theorem C02_online_named_is_online :
+  forall (VS : Val) (AR : Arith VS) (pk : formula -> formula -> pkind)
+         (vidx : string -> string -> nat) (cval : string -> V) (bnd : bound -> bound -> nat * nat)
+         (w : trace) (F : list node) (len : nat),
+    F <> [] ->
+    (forall x, In x F -> nwf x = true /\ past_only (sem vidx cval bnd x) = true /\ wf_bounds (sem vidx cval bnd x) = true) ->
+    snd (nmon_run AR pk vidx cval bnd F (ndict_init vidx cval bnd F) w 0 len)
+    = snd (mon_run AR pk (map (sem vidx cval bnd) F) dict_init w 0 len).
+Proof. intros VS AR pk vidx cval bnd w. exact (@named_online_is_online VS AR pk vidx cval bnd w 0). Qed.
+Print Assumptions C02_online_named_is_online.
+
+Example C02_named_nonvacuous :
+  let vidx := fun (v f : string) => if String.eqb v "x" then 0 else 1 in
+  let cval := fun t : string => if String.eqb t "1.0" then Fin 1 else Fin 0 in
+  let bnd := bnd_of US 500 UMS in     (* default unit s, sampling period 500 ms *)
+  let b1 := {| bnum := 1; bden := 2; bunit := Some US |} in
+  let b2 := {| bnum := 1000; bden := 1; bunit := Some UMS |} in
+  let q := NUn u_sprev (NBin (b_pred CGeq) (NVar "x" "") (NConst "1.0")) in
+  let p := NBin b_and (NBin b_since q (NTUn t_once b1 b2 q)) (NUn u_not q) in
+  let w := [[Fin 3; Fin 0; Fin (-1); Fin 4; Fin 2]] in
+  (forall x, In x [p] -> nwf x = true /\ past_only (sem vidx cval bnd x) = true /\ wf_bounds (sem vidx cval bnd x) = true) /\
+  nname p = "((s_previous((x)>=(1.0)))since(once[1/2s,1000ms](s_previous((x)>=(1.0)))))and(not(s_previous((x)>=(1.0))))"%string /\
+  sem vidx cval bnd p = (let q' := SPrev (Pred CGeq (Var 0) (Const (Fin 1))) in And (Since q' (OnceT 1 2 q')) (Not q')) /\
+  snd (nmon_run ExtZArith (fun _ _ => PStd) vidx cval bnd [p] (ndict_init vidx cval bnd [p]) w 0 5)
+  = eval_off ExtZArith (fun _ _ => PStd) (sem vidx cval bnd p) w 5.
+Proof.
+  cbv zeta. split; [|split; [|split]].
+  - intros x [<-|[]]. repeat split; vm_compute; reflexivity.
+  - vm_compute. reflexivity.
+  - vm_compute. reflexivity.
+  - vm_compute. reflexivity.
 Qed.
